@@ -159,3 +159,138 @@ def apply_aliases(prog):
             prog.by_path.setdefault(new, [])
             if f not in prog.by_path[new]:
                 prog.by_path[new].append(f)
+
+
+# ------------------------------------------------------------------ field normal form
+
+def apply_field_groups(prog):
+    """A pinned struct whose fields were grouped into a nested private struct that did not exist on the pinned tree
+    (`bins: BinConfig { size, count }` for `bin_size`, `bin_count`) is presented with its pinned flat fields.
+
+    The missing pinned fields of S are matched with the fields of the new nested structs (one level) by, in order:
+    the same name; the constructor parameter that initialises them (a pinned field that was initialised from the
+    parameter of the same name); a unique type.  Only a complete, one-to-one match is used; otherwise nothing is
+    rewritten and the rules see the tree as it is (and fail closed on their anchors)."""
+    from .facts import norm_path
+    known = load_known_items()
+    kfields = known.get("adt_fields", {})
+    groups = {}           # S -> {(g, f): pinned}
+    for spath, pinned in kfields.items():
+        adt = prog.adts.get(spath)
+        if adt is None or adt.get("dk") != "Struct" or not adt.get("variants"):
+            continue
+        cur = adt["variants"][0]["fields"]
+        cur_names = set(f["name"] for f in cur)
+        missing = [(n, t) for n, t in pinned if n not in cur_names]
+        if not missing:
+            continue
+        nested = []       # (g, f, ty, vis)
+        for gf in cur:
+            tpath = norm_path(gf.get("ty", ""))
+            if gf["name"] in dict(pinned) or tpath in known.get("adts", []):
+                continue
+            t = prog.adts.get(tpath)
+            if t is None or t.get("dk") != "Struct" or not t.get("variants"):
+                continue
+            for f in t["variants"][0]["fields"]:
+                nested.append((gf["name"], f["name"], f.get("ty", ""), gf.get("vis", ""), f.get("vis", "")))
+        if not nested:
+            continue
+        # constructor evidence: nested field initialised from the parameter named like a missing pinned field
+        by_param = {}
+        for f in prog.by_path.get(spath + "::new", []):
+            pnames = {p.get("id"): p.get("name") for p in f.get("params", []) if p.get("k") == "pbind"}
+            for lit in _walk_nodes(f["body"]):
+                if lit.get("k") != "struct":
+                    continue
+                for fe in lit.get("fields", []):
+                    e = fe.get("e")
+                    while isinstance(e, dict) and e.get("k") in ("cast",) and False:
+                        e = e["e"]
+                    if isinstance(e, dict) and e.get("k") == "local" and e.get("id") in pnames:
+                        by_param[(norm_path(lit.get("adt") or lit.get("path", "")), fe["name"])] = pnames[e["id"]]
+        mapping = {}
+        used = set()
+        for mname, mty in missing:
+            cands = [x for x in nested if x[1] == mname and (x[0], x[1]) not in used]
+            if len(cands) != 1:
+                cands = []
+                for x in nested:
+                    gty = norm_path(next(g_["ty"] for g_ in cur if g_["name"] == x[0]))
+                    if by_param.get((gty, x[1])) == mname and (x[0], x[1]) not in used:
+                        cands.append(x)
+            if len(cands) != 1:
+                cands = [x for x in nested if x[2] == mty and (x[0], x[1]) not in used]
+                others = [m for m in missing if m[1] == mty]
+                if len(others) != 1:
+                    cands = []
+            if len(cands) != 1:
+                mapping = None
+                break
+            used.add((cands[0][0], cands[0][1]))
+            mapping[(cands[0][0], cands[0][1])] = (mname, cands[0])
+        if not mapping:
+            continue
+        groups[spath] = mapping
+    prog.field_groups = {s: {"%s.%s" % k: v[0] for k, v in m.items()} for s, m in groups.items()}
+    if not groups:
+        return
+    # the struct's own description
+    for spath, mapping in groups.items():
+        adt = prog.adts[spath]
+        fields = adt["variants"][0]["fields"]
+        gnames = set(g for (g, _f) in mapping)
+        for (g, f), (pin, x) in mapping.items():
+            gvis, fvis = x[3], x[4]
+            vis = fvis if not fvis.startswith("Public") else gvis     # reachable only through both
+            fields.append({"name": pin, "vis": vis, "ty": x[2], "grouped_in": "%s.%s" % (g, f)})
+        adt["grouped_fields"] = sorted(gnames)
+
+    def rw(n):
+        if isinstance(n, list):
+            return [rw(x) for x in n]
+        if not isinstance(n, dict):
+            return n
+        for key, v in list(n.items()):
+            if isinstance(v, (dict, list)):
+                n[key] = rw(v)
+        k = n.get("k")
+        if k == "field" and isinstance(n.get("e"), dict) and n["e"].get("k") == "field":
+            inner = n["e"]
+            s = norm_path(inner.get("adt", ""))
+            m = groups.get(s)
+            if m and (inner["name"], n["name"]) in m:
+                return dict(n, name=m[(inner["name"], n["name"])][0], adt=inner.get("adt"), e=inner["e"], regrouped=True)
+        if k == "struct":
+            s = norm_path(n.get("adt") or n.get("path", ""))
+            m = groups.get(s)
+            if m:
+                out = []
+                for fe in n.get("fields", []):
+                    sub = fe.get("e")
+                    gs = [(g, f) for (g, f) in m if g == fe["name"]]
+                    if gs and isinstance(sub, dict) and sub.get("k") == "struct":
+                        subf = {x["name"]: x["e"] for x in sub.get("fields", [])}
+                        for (g, f) in gs:
+                            if f in subf:
+                                out.append({"name": m[(g, f)][0], "e": subf[f]})
+                        continue
+                    out.append(fe)
+                n["fields"] = out
+        return n
+    for (unit, path), f in prog.fns.items():
+        if f.get("_regrouped"):
+            continue
+        f["body"] = rw(f["body"])
+        f["_regrouped"] = True
+
+
+def _walk_nodes(n):
+    stack = [n]
+    while stack:
+        x = stack.pop()
+        if isinstance(x, dict):
+            yield x
+            stack.extend(v for v in x.values() if isinstance(v, (dict, list)))
+        elif isinstance(x, list):
+            stack.extend(x)
